@@ -7,5 +7,5 @@ cp -a /repo/. $D/
 if [ "$P" != "-" ]; then (cd $D && git apply "$P"); fi
 cd /verif
 PYNENC_REPO=$D PYTHONPATH=/verif:$D PYNENC_VERIF=1 PYTHONDONTWRITEBYTECODE=1 /venv/bin/python -m harness.run $C --tier $T 2>&1 | tail -${LINES_OUT:-8} || true
-rm -rf $D; git -C /verif checkout -- lean/PynencModel/Gen 2>/dev/null || true
+rm -rf $D; (cd /verif && PYTHONPATH=/verif:/repo /venv/bin/python -m harness.regen >/dev/null 2>&1) || true
 # restore Gen files for the real tree
